@@ -11,6 +11,18 @@ Module L := PJ.Model.Lookup.
 Local Open Scope Z_scope.
 
 (* ------------------------------------------------------------------ the adapters, as the model has them *)
+(* ------------------------------------------------------------------ exceptions *)
+Definition exn_of (e : Base.exn) : PyPrims.exn :=
+  match e with
+  | KeyErr => KeyError | IndexErr => IndexError | Conformance => JellyConformanceError | JAssertion => JellyAssertionError
+  | AssertionErr => AssertionError | NotImpl => NotImplementedError | TypeErr => TypeError | ValueErr => ValueError
+  | DecodeErr => ValueError | StopIter => StopIteration | AttrErr => AttributeError
+  end.
+(* the model lifts every failure of a lookup table to IndexErr (model/Lookup.v says only that the call fails) *)
+Definition err_ok (pe : PyPrims.exn) (me : Base.exn) : Prop := me = IndexErr \/ pe = exn_of me.
+(* ... as it leaves a generator (iter_rows): a StopIteration would have become a RuntimeError (PEP 479) *)
+Definition err_ok_gen (pe : PyPrims.exn) (me : Base.exn) : Prop := exists e0, pe = gen_exn e0 /\ err_ok e0 me.
+
 Inductive aval := ATerm (t : term) | AEv (e : event) | AUnit.
 
 Record madapter := { ma_opts : ParserOptions SN; ma_ig : integ; ma_kind : adapter_kind; ma_graph : option term }.
@@ -20,8 +32,10 @@ Definition ma_set_graph (g : option term) (a : madapter) : madapter :=
 Definition a_iri (k : str) (a : madapter) : outcome aval * madapter := (Val (ATerm (TIri k)), a).
 Definition a_default_graph (a : madapter) : outcome aval * madapter := (Val (ATerm TDefault), a).
 Definition a_bnode (k : str) (a : madapter) : outcome aval * madapter := (Val (ATerm (TBnode k)), a).
+(* literal(lex, language, datatype): the term the integration's constructor builds (model/Decoder.v, mk_literal: for rdflib,
+   rdflib.Literal's checks and rewriting) *)
 Definition a_literal (lex : str) (lang dt : option str) (a : madapter) : outcome aval * madapter :=
-  (Val (ATerm (TLit lex lang dt)), a).
+  match mk_literal (ma_ig a) lex lang dt with Ok t => (Val (ATerm t), a) | Err e => (Exn (exn_of e), a) end.
 Definition a_triple (ts : list aval) (a : madapter) : outcome aval * madapter :=
   match ma_kind a with
   | ATriples => match ts with [ATerm s; ATerm p; ATerm o] => (Val (AEv (ETriple s p o)), a) | _ => (Exn TypeError, a) end
@@ -55,18 +69,6 @@ Definition a_quoted (ts : list aval) (a : madapter) : outcome aval * madapter :=
   | Rdflib => (Exn NotImplementedError, a)
   end.
 
-
-(* ------------------------------------------------------------------ exceptions *)
-Definition exn_of (e : Base.exn) : PyPrims.exn :=
-  match e with
-  | KeyErr => KeyError | IndexErr => IndexError | Conformance => JellyConformanceError | JAssertion => JellyAssertionError
-  | AssertionErr => AssertionError | NotImpl => NotImplementedError | TypeErr => TypeError | ValueErr => ValueError
-  | DecodeErr => ValueError | StopIter => StopIteration | AttrErr => AttributeError
-  end.
-(* the model lifts every failure of a lookup table to IndexErr (model/Lookup.v says only that the call fails) *)
-Definition err_ok (pe : PyPrims.exn) (me : Base.exn) : Prop := me = IndexErr \/ pe = exn_of me.
-(* ... as it leaves a generator (iter_rows): a StopIteration would have become a RuntimeError (PEP 479) *)
-Definition err_ok_gen (pe : PyPrims.exn) (me : Base.exn) : Prop := exists e0, pe = gen_exn e0 /\ err_ok e0 me.
 
 (* ------------------------------------------------------------------ states *)
 Definition Rz (g : LookupDecoder SN) (m : sldec) : Prop :=
